@@ -36,7 +36,7 @@ def correspond(ck, res, cf, hbin, tag, env=None):
 
 # level currently claimed per property (kept in step with tools/mkmanifest.py); "exploration" = the
 # property theorems are not finished yet: only the correspondence + judge decide
-LEVEL = {"C14": "exploration", "C19": "exploration", "C09": "exploration", "C01": "exploration", "C02": "exploration", "C03": "exploration", "C04": "exploration", "C05": "exploration", "C12": "exploration", "C13": "exploration"}
+LEVEL = {"C11": "exploration", "C14": "exploration", "C19": "exploration", "C09": "exploration", "C01": "exploration", "C02": "exploration", "C03": "exploration", "C04": "exploration", "C05": "exploration", "C12": "exploration", "C13": "exploration"}
 def level_of(pid):
     return LEVEL.get(pid, "proof")
 
@@ -818,10 +818,12 @@ def judge_adf(text, a, queries, sort="none"):
     # the same query asked again later (after round trips or other calls) must give the same answer
     seen = {}
     for k, q in enumerate(queries):
-        if q[0] in ("roundtrip", "table", "acs", "validate"):
+        if q[0] in ("roundtrip", "table", "acs", "validate", "audit", "ops"):
             continue
         key = tuple(q)
         r = ans.get(k)
+        if r is not None and "Rand" in q:
+            r = r.split()[0] + " " + " ".join(sorted(r.split()[1:]))     # the generator state advances between calls: order may differ
         if key in seen and r is not None and seen[key] != r.split(" ", 1)[-1]:
             bad.append(("history:" + q[0], "%s answers differently when asked again later: %s vs %s" % (" ".join(q), seen[key], r)))
         if r is not None:
@@ -831,7 +833,7 @@ def judge_adf(text, a, queries, sort="none"):
     return bad, info
 
 
-def run_adf_check(ck, res, replay, pid, queries_of, n_quick, n_thorough, nmax_q=7, nmax_t=9, tt3_q=0, tt3_t=0, ties=("TieLeaf",), seeds=False, case_timeout=None, backends=("native",)):
+def run_adf_check(ck, res, replay, pid, queries_of, n_quick, n_thorough, nmax_q=7, nmax_t=9, tt3_q=0, tt3_t=0, ties=("TieLeaf",), seeds=False, case_timeout=None, backends=("native",), rerun=False):
     common_front(ck, res, pid, ties=ties)
     hbin = ck.build_harness(res)
     rng = gen.Rng(res.seed ^ int(pid[1:], 16))
@@ -856,6 +858,8 @@ def run_adf_check(ck, res, replay, pid, queries_of, n_quick, n_thorough, nmax_q=
             cf.add("ADF", body, meta={"text": text, "origin": origin, "queries": qs, "sort": sort, "backend": backend})
     env = {"VERIF_CASE_TIMEOUT_MS": str(case_timeout)} if case_timeout else None
     impl, model = correspond(ck, res, cf, hbin, pid, env=env)
+    if rerun and hbin:
+        rerun_determinism(ck, res, cf, hbin, impl, pid, env=env)
     nontriv = set()
     mism = 0
     dist = {}
@@ -1273,3 +1277,62 @@ def check_C14(ck, res, replay):
     # additional judgement: identical numbering and identical answers before / after each round trip
     hb = os.path.join(ck.ROOT, "harness", "target", "debug", "verif-harness")
     return ck.finish(res, level_of(res.pid), ASSUME_COMMON + ["serde / serde_json transport the records faithfully (exercised, not modelled)"])
+
+
+# ====================================================================== C11 call histories
+def rand_ops(rng, n):
+    ops = []
+    k = 1 + rng.below(5)
+    for i in range(k):
+        o = rng.pick(["not", "and", "or", "xor", "iff", "imp", "restrict", "var"])
+        if o == "not":
+            ops.append("not:%d" % rng.below(50))
+        elif o == "restrict":
+            ops.append("restrict:%d:%d:%d" % (rng.below(50), rng.below(n), rng.below(2)))
+        elif o == "var":
+            ops.append("var:%d" % rng.below(n))
+        else:
+            ops.append("%s:%d:%d" % (o, rng.below(50), rng.below(50)))
+    return ";".join(ops)
+
+
+def c11_queries_for(n):
+    def f(rng, b):
+        pool = [["grounded"], ["complete"], ["stable"], ["stablepre"], ["stmca"], ["stmcb"], ["stmng", "Simple"], ["stmng", "MinModMaxVarImpMinPaths"],
+                ["twoval", "MinModMinPathsMaxVarImp"], ["stmng", "Rand"], ["counts", "0"], ["facets"]]
+        qs = []
+        for _ in range(3 + rng.below(8)):
+            k = rng.below(10)
+            if k < 7:
+                qs.append(rng.pick(pool))
+            elif k < 9:
+                qs.append(["ops", rand_ops(rng, n)])
+            else:
+                qs.append(["audit"])
+        qs.append(["audit"])
+        qs.append(rng.pick(pool[:9]))     # the probe: an answer that is also checked against the definitions
+        qs.append(["audit"])
+        return qs
+    return f
+
+
+def check_C11(ck, res, replay):
+    # statement count is not known before generation: operand numbers are taken modulo the register file, variables modulo 1 (var 0 always exists)
+    run_adf_check(ck, res, replay, "C11", c11_queries_for(1), 600, 10000, nmax_q=7, nmax_t=9, backends=("native", "hyb0", "hyb1"), seeds=True, case_timeout=15000,
+                  ties=("TieLeaf", "TieMoreModels"), rerun=True)
+    return ck.finish(res, level_of(res.pid), ASSUME_COMMON + ["HashMap iteration order is never observable through the modelled API"])
+
+
+def rerun_determinism(ck, res, cf, hbin, first, tag, env=None):
+    """repeating the same call sequences reproduces the same answers in the same order"""
+    again, _ = ck.run_sharded(hbin, cf.lines, tag + ".again", env=env)
+    diff = 0
+    for cid in first:
+        a = [l for l in first[cid] if not l.startswith("inject ")]
+        b = [l for l in again.get(cid, []) if not l.startswith("inject ")]
+        if a != b and not any(l in ("SKIPPED", "TIMEOUT") for l in a + b):
+            diff += 1
+            res.violations.append({"key": "nondeterminism", "what": "the same call sequence gave different answers on a second run", "first": a, "second": b,
+                                   "body": cf.meta[cid][1], "meta": cf.meta[cid][2]})
+    res.extra["determinism_reruns"] = len(first)
+    res.extra["determinism_differences"] = diff
